@@ -372,7 +372,11 @@ pub fn c12(tier: &str, seed: u64) -> i32 {
     let mut images = 0;
     let mut sweep_jobs: Vec<(String, Vec<u8>)> = Vec::new();
     for kt in KtId::ALL {
-        for hist in ["inserts", "deletes-overwrites", "large-slots", "all-classes"] {
+        for hist in ["inserts", "deletes-overwrites", "large-slots", "all-classes", "key-classes"] {
+            // the key-classes history (a live key and a freed slot of every key slot class) exists for the byte-string key types
+            if hist == "key-classes" && !matches!(kt, KtId::Bytes | KtId::Str) {
+                continue;
+            }
             let dir = root.join(kt.name()).join(hist);
             let label = format!("golden/{}/{}", kt.name(), hist);
             let (img, expected) = match (Image::read(&dir, MAP_NAME), read_expected(&dir)) {
@@ -459,7 +463,10 @@ pub fn c12(tier: &str, seed: u64) -> i32 {
     let proto = crate::report::verif_root().join("notes/decoder_prototype.py");
     if proto.exists() {
         for kt in KtId::ALL {
-            for hist in ["inserts", "deletes-overwrites", "large-slots", "all-classes"] {
+            for hist in ["inserts", "deletes-overwrites", "large-slots", "all-classes", "key-classes"] {
+                if hist == "key-classes" && !matches!(kt, KtId::Bytes | KtId::Str) {
+                    continue;
+                }
                 let dir = root.join(kt.name()).join(hist);
                 match std::process::Command::new("python3").arg(&proto).arg(&dir).output() {
                     Ok(o) if o.status.success() && String::from_utf8_lossy(&o.stdout).contains("OK n=") => ctx.run.add("python_decoder_agreements", 1),
@@ -480,7 +487,7 @@ pub fn c12(tier: &str, seed: u64) -> i32 {
         }
     }
     // capped runs are expected here (the point is the start state and its neighbourhood)
-    let rule = "golden images written by the pinned release (5 key types x {inserts only; deletes+overwrites with non-empty free lists; large slots with overwrites}) are start states of the image-graph search: (1) the independent decoder, written from the documentation, must recover the recorded contents from the released bytes (header layout, /8 offset encoding, vu64, placement hash); (2) on the start state and every successor the current build must answer get/includes_key/len/is_empty, all iterators, re-open under other parameters and the statistics per the model, leave the files byte-identical under a read-only session, and obey the allocation rule; successors come from every history over two existing keys and one new key, breadth first to closure or the stated cap. non-trivial = states decoded whose contents come from the release-written image";
+    let rule = "golden images written by the pinned release (5 key types x {inserts only; deletes+overwrites with non-empty free lists; large slots with overwrites; a live and a freed value slot of every class}, and for the byte-string key types a live key and a freed slot of every key slot class) are start states of the image-graph search: (1) the independent decoder, written from the documentation, must recover the recorded contents from the released bytes (header layout, /8 offset encoding, vu64, placement hash); (2) on the start state and every successor the current build must answer get/includes_key/len/is_empty, all iterators, re-open under other parameters and the statistics per the model, leave the files byte-identical under a read-only session, and obey the allocation rule; successors come from every history over two existing keys and one new key, breadth first to closure or the stated cap. non-trivial = states decoded whose contents come from the release-written image";
     ctx.finish_model_checking(rule, &["decoded_states"])
 }
 
